@@ -1473,7 +1473,7 @@ def thr_case(plan):
             try:
                 if yield_lines:
                     sys.settrace(tracer)
-                barrier.wait(timeout=20)
+                barrier.wait(timeout=120)
                 for bid in plan["threads"][k]:
                     results[k].append((bid, define_plain(d, "K", bid)))
             except Exception as ex:  # pragma: no cover
@@ -1487,7 +1487,7 @@ def thr_case(plan):
             t.start()
         hung = False
         for t in ths:
-            t.join(timeout=60)
+            t.join(timeout=300)
             hung = hung or t.is_alive()
         sys.setswitchinterval(old)
         flat = [(bid, cls) for r in results for bid, cls in r]
@@ -1554,6 +1554,12 @@ def generate(tier, seed):
         uid[0] += 1
         return "%d" % uid[0]
 
+    for i in range(n_hist):
+        plan = gen_hist_plan(rng)
+        cases.extend(safe(lambda: [hist_case(plan)], {"family": "hist", "plan": plan}))
+    for i in range(n_thr):
+        plan = gen_thr_plan(rng)
+        cases.extend(safe(lambda: [thr_case(plan)], {"family": "thr", "plan": plan}))
     for i in range(n_poison):
         spec = extend_spec(rng, g.gen_class_spec(rng, nuid(), base=None))
         sd = rng.randrange(1 << 30)
@@ -1576,12 +1582,6 @@ def generate(tier, seed):
     for ho in (False, True):
         sd = rng.randrange(1 << 30)
         cases.extend(safe(getattr_cases, {"family": "getattr", "has_original": ho, "variant": "clean", "seed": sd}, sd, ho))
-    for i in range(n_hist):
-        plan = gen_hist_plan(rng)
-        cases.extend(safe(lambda: [hist_case(plan)], {"family": "hist", "plan": plan}))
-    for i in range(n_thr):
-        plan = gen_thr_plan(rng)
-        cases.extend(safe(lambda: [thr_case(plan)], {"family": "thr", "plan": plan}))
     gc.collect()
     return cases
 
